@@ -110,7 +110,11 @@ def correspondence(ctx):
     for _ in range(300 if ctx.tier == 'quick' else 3000):
         n = rng.randrange(0, 7)
         body = [rng.choice(lines[:400]).replace('\n', '') for _ in range(n)]
+        crlf = rng.random() < 0.35
         content = 'Codepoint,Property,Description\n' + '\n'.join(body) + ('\n' if rng.random() < 0.7 else '')
+        if crlf:
+            # CR LF terminators (as in the published registry file): the CR belongs to the description text, the LF ends the line
+            content = content.replace('\n', '\r\n')
         exp = []
         flines = content.split('\n')
         if flines and flines[-1] == '':
